@@ -5,7 +5,7 @@ from concurrent.futures import ThreadPoolExecutor
 
 VERIF = os.path.dirname(os.path.dirname(os.path.abspath(__file__)))
 REPO = os.environ.get('VERIF_REPO', '/repo')
-BUILD = os.path.join(VERIF, 'build')
+BUILD = os.environ.get('VERIF_BUILD', os.path.join(VERIF, 'build'))
 COQ = os.path.join(VERIF, 'coq')
 REPLAYS = os.path.join(VERIF, 'replays')
 EVID = os.path.join(VERIF, 'evidence')
